@@ -626,6 +626,10 @@ class Interp:
             if n is not None:
                 named[n.lower()] = (n, e)
         used = set()
+        # (char.) attribute dictionaries are evaluated first, in their
+        # written order, before static interpolations and named entries
+        hoisted = [self.eval(e, with_default=True) for n, e in dyn
+                   if n is None]
         for space, aname, quote, parts in el["attrs"]:
             ov = named.get(aname.lower())
             if ov is not None:
@@ -648,7 +652,7 @@ class Interp:
                 self.out.append(space + aname + "=" + quote + v + quote)
         for n, e in dyn:
             if n is None:
-                d = self.eval(e, with_default=True)
+                d = hoisted.pop(0)
                 for k, v in d.items():
                     if k in self.boolean_attrs:
                         if not v:
